@@ -1731,6 +1731,13 @@ fn handmade() -> Vec<(&'static str, Vec<&'static str>, Vec<&'static str>, Vec<(&
         ),
         (
             "pos",
+            vec!["(defsrc a b)", "(deflayer l0 (tap-hold 300 100 a lsft) b)"],
+            vec!["(defvar tap-timeout 100)", "(deftemplate th (hold-timeout tap-timeout) (tap-hold $tap-timeout $hold-timeout a lsft))", "(defsrc a b)", "(deflayer l0 (t! th $tap-timeout 300) b)"],
+            vec![],
+            "p:a t:150 r:a t:50 p:a t:350 r:a t:50 p:b t:10 r:b t:300",
+        ),
+        (
+            "pos",
             vec!["(defsrc a b)", "(deflayer l0 (multi (tap-hold 200 200 a lsft) (macro 200)) b)"],
             vec!["(defvar k 200 l (tap-hold $k $k a lsft) r (macro $k) both (multi $l $r))", "(defsrc a b)", "(deflayer l0 $both b)"],
             vec![],
